@@ -767,6 +767,16 @@ func (g *giEval) stmt(s ast.Stmt, st *giState, results []types.Object) (fall []*
 			cur = next
 		}
 		for _, a := range cur {
+			// a result of type error that is not nil (and not a tracked error variable) is some error
+			for i, e := range x.Results {
+				if tv, ok := g.info.Types[e]; ok && i == len(x.Results)-1 && !a.vs[i].isNil && !a.vs[i].errV {
+					if _, isPtr := tv.Type.(*types.Pointer); isPtr || types.Identical(tv.Type, types.Universe.Lookup("error").Type()) {
+						if id := identOf(e); id == nil || id.Name != "nil" {
+							a.vs[i].errV = true
+						}
+					}
+				}
+			}
 			rets = append(rets, giRet{a.st, a.vs})
 		}
 		return nil, rets
@@ -960,4 +970,108 @@ func runC13R2(c *Ctx, r *Rep) {
 			}
 		}
 	}
+}
+
+// C13.R13: the subscript normaliser py.IndexIntCheck, by the same interpretation: over the regions of the converted
+// subscript v against the length — v >= len and v < -len raise, 0 <= v < len answers v, -len <= v < 0 answers v + len.
+func runC13R13(c *Ctx, r *Rep) {
+	fn := c.Func("py", "IndexIntCheck")
+	fd := c.Decl(fn)
+	if fn == nil || fd == nil || fd.Body == nil {
+		r.undecided("py|IndexIntCheck", token.NoPos, "anchor function not found")
+		return
+	}
+	r.analysed("py.IndexIntCheck")
+	pyp := c.MustPkg("py")
+	info := pyp.TypesInfo
+	sig := fn.Type().(*types.Signature)
+	if sig.Params().Len() != 2 || !isIntType(sig.Params().At(1).Type()) || sig.Results().Len() != 2 || !isIntType(sig.Results().At(0).Type()) {
+		r.undecided("py|IndexIntCheck|signature", fd.Pos(), "expected IndexIntCheck(object, length) (int, error)")
+		return
+	}
+	var params []types.Object
+	for _, f := range fd.Type.Params.List {
+		for _, nm := range f.Names {
+			params = append(params, info.Defs[nm])
+		}
+	}
+	if len(params) != 2 {
+		r.undecided("py|IndexIntCheck|signature", fd.Pos(), "unnamed parameters")
+		return
+	}
+	L := linSym("L")
+	v := linSym("vS")
+	cases := []struct {
+		name string
+		cons []*lin
+		want *lin // nil: must raise
+	}{
+		{"v >= len", []*lin{v.sub(L)}, nil},
+		{"0 <= v < len", []*lin{v, L.sub(v).add(linConst(-1))}, v},
+		{"-len <= v < 0", []*lin{v.add(L), v.scale(-1).add(linConst(-1))}, v.add(L)},
+		{"v < -len", []*lin{v.add(L).scale(-1).add(linConst(-1))}, nil},
+	}
+	show := func(l *lin) string {
+		if l == nil {
+			return "a value the interpretation lost track of"
+		}
+		return strings.NewReplacer("vS", "v", "L", "len").Replace(l.String())
+	}
+	for _, cs := range cases {
+		g := &giEval{c: c, info: info, pkg: pyp.Types, cs: giCase{stepCase: "none", startCase: "in", stopCase: "none"}}
+		st := &giState{vars: map[types.Object]giVal{}}
+		st.vars[params[0]] = giVal{field: "Start"}
+		st.vars[params[1]] = giVal{l: L}
+		st.cons = append(st.cons, L)
+		st.cons = append(st.cons, cs.cons...)
+		rets := g.fn(fd, st)
+		key := "py|IndexIntCheck|subscript " + cs.name
+		var und, wrong []string
+		okPaths, errPaths := 0, 0
+		for _, rt := range rets {
+			if len(rt.st.und) > 0 {
+				und = append(und, rt.st.und...)
+				continue
+			}
+			if len(rt.vals) != 2 {
+				und = append(und, "a return does not answer both results")
+				continue
+			}
+			if rt.vals[1].errV {
+				errPaths++
+				continue
+			}
+			got := rt.vals[0].l
+			if cs.want != nil && got != nil {
+				d := got.sub(cs.want)
+				above := append(append([]*lin(nil), rt.st.cons...), d.add(linConst(-1)))
+				below := append(append([]*lin(nil), rt.st.cons...), d.scale(-1).add(linConst(-1)))
+				if got.equal(cs.want) || (!fmFeasible(above) && !fmFeasible(below)) {
+					okPaths++
+					continue
+				}
+			}
+			wrong = append(wrong, show(got))
+		}
+		switch {
+		case len(und) > 0:
+			r.undecided(key, fd.Pos(), "%s", strings.Join(uniq(und), "; "))
+		case cs.want == nil && len(wrong) > 0:
+			r.bad(key, fd.Pos(), "for a subscript %s (v the converted subscript, len the sequence length) IndexIntCheck answers %s on some path instead of raising IndexError: the caller indexes its item array with it", cs.name, strings.Join(uniq(wrong), " / "))
+		case cs.want == nil:
+			r.check(errPaths > 0, key, fd.Pos(), fmt.Sprintf("raises on all %d paths", errPaths), "no path at all for this region")
+		case len(wrong) > 0:
+			r.bad(key, fd.Pos(), "for a subscript %s IndexIntCheck answers %s on some path; the sequence model defines %s (a negative subscript counts from the end, once)", cs.name, strings.Join(uniq(wrong), " / "), show(cs.want))
+		case okPaths == 0:
+			r.bad(key, fd.Pos(), "for a subscript %s every path of IndexIntCheck raises; the sequence model defines item %s", cs.name, show(cs.want))
+		default:
+			r.ok(key, fd.Pos(), "answers %s on all %d non-raising paths", show(cs.want), okPaths)
+		}
+	}
+}
+
+func init() {
+	register(&Rule{ID: "C13.R13", Prop: "C13", Floor: 4,
+		Doc: "subscript normalisation in py.IndexIntCheck, by abstract interpretation over the regions of the converted subscript v against the length (linear forms, Fourier–Motzkin feasibility): v >= len and v < -len raise on every path, 0 <= v < len answers v, -len <= v < 0 answers v + len",
+		Run: runC13R13})
 }
